@@ -78,6 +78,18 @@ def isVar : Expr → Bool
   | .var _ => true
   | _ => false
 
+/-- all variables of the tree are below `n` (in the integer model every declared variable is an
+integer variable and every literal an integer literal, so this is `is_int_expr` of
+`runtime_api/mod.rs` with `n = model.vars.count()`) -/
+def varsLt (n : Nat) : Expr → Bool
+  | .var i => decide (i < n)
+  | .val _ => true
+  | .add a b => varsLt n a && varsLt n b
+  | .sub a b => varsLt n a && varsLt n b
+  | .mul a b => varsLt n a && varsLt n b
+  | .div a b => varsLt n a && varsLt n b
+  | .mod a b => varsLt n a && varsLt n b
+
 /-- linear form `(coefficients, variables, constant)`, repeated variables merged
 (`try_extract_linear_form`) -/
 def addTerm (cs : List Int) (xs : List Nat) (x : Nat) (c : Int) (f : Int → Int → Int) : List Int × List Nat :=
@@ -154,6 +166,8 @@ inductive LP where
   | linEq (cs : List Int) (xs : List Nat) (c : Int)
   | linLe (cs : List Int) (xs : List Nat) (c : Int)
   | linNe (cs : List Int) (xs : List Nat) (c : Int)
+  | reif (op : CmpOp) (x y b : Nat)  -- IntEqReif / IntNeReif / IntLtReif / IntLeReif / IntGtReif / IntGeReif { x, y, b }
+  | boolOr (ops : List Nat) (r : Nat) -- BoolOr { operands, result }
 deriving Repr
 
 /-- pending entries of `Model::pending_constraint_asts` -/
@@ -253,6 +267,36 @@ def materializeLin (m : LModel) (cs : List Int) (xs : List Nat) (op : CmpOp) (k 
   | .gt => m.post (.linLe (negAll cs) xs (-k - 1))
   | .lt => m.post (.linLe cs xs (k - 1))
 
+/-- the `ReifiedBinary` arm of `materialize_constraint_kind`: `b ⇔ (l op r)`; both operands go
+through `get_expr_var` (no `Var op Val` shortcut, no immediate domain edit) -/
+def postReif (m : LModel) (l : Expr) (op : CmpOp) (r : Expr) (b : Nat) : LModel :=
+  let (m1, lv) := m.getExprVar l
+  let (m2, rv) := m1.getExprVar r
+  m2.post (.reif op lv rv b)
+
+/-- the domain of `model.bool()` = `int(0, 1)` -/
+def boolDom : Dom := rangeDom 0 1
+
+/-- `c1.or(c2)` on two comparisons over integer operands (since the repair `fix: or of two
+comparisons is a disjunction`): two fresh booleans and a constant `1` (in this order), the two
+reified comparisons, `BoolOr([b1, b2]) = one` -/
+def reifOr (m : LModel) (l1 : Expr) (op1 : CmpOp) (r1 : Expr) (l2 : Expr) (op2 : CmpOp) (r2 : Expr) : LModel :=
+  let (m1, b1) := m.newVar boolDom
+  let (m2, b2) := m1.newVar boolDom
+  let (m3, one) := m2.newVar [1]
+  let m4 := m3.postReif l1 op1 r1 b1
+  let m5 := m4.postReif l2 op2 r2 b2
+  m5.post (.boolOr [b1, b2] one)
+
+/-- `is_int_expr` on the four operands of the two comparisons -/
+def intOperands (m : LModel) (l1 r1 l2 r2 : Expr) : Bool :=
+  l1.varsLt m.doms.length && r1.varsLt m.doms.length && l2.varsLt m.doms.length && r2.varsLt m.doms.length
+
+/-- the special case of the `Or` arm: `x == p or x == q` on ONE variable -/
+def sameVarEq : Expr → CmpOp → Expr → Expr → CmpOp → Expr → Option (Nat × Int × Int)
+  | .var x, .eq, .val p, .var y, .eq, .val q => if x = y then some (x, p, q) else none
+  | _, _, _, _, _, _ => none
+
 /-- `materialize_constraint_kind` for `Binary` / `And` / `Or` / `Not` -/
 def materialize (m : LModel) : Con → LModel
   | .bin l op r =>
@@ -276,13 +320,18 @@ def materialize (m : LModel) : Con → LModel
   | .and a b => materialize (materialize m a) b
   | .or a b =>
     match a, b with
-    | .bin (.var x) .eq (.val p), .bin (.var y) .eq (.val q) =>
-      if x = y then
+    | .bin l1 op1 r1, .bin l2 op2 r2 =>
+      match sameVarEq l1 op1 r1 l2 op2 r2 with
+      | some (x, p, q) =>
         /- `x == p or x == q`: a fresh set variable unified with `x` -/
         let d : Dom := if p = q then [p] else if p < q then [p, q] else [q, p]
         let (m1, dv) := m.newVar d
         m1.post (.eqVV x dv)
-      else materialize (materialize m a) b
+      | none =>
+        /- two comparisons: reified disjunction (integer operands); otherwise, and for every other
+        shape, still "both constraints are posted" (finding `or-lowered-as-and`) -/
+        if m.intOperands l1 r1 l2 r2 then m.reifOr l1 op1 r1 l2 op2 r2
+        else materialize (materialize m a) b
     | _, _ => materialize (materialize m a) b
   | .not a => materialize m a
 
@@ -351,6 +400,10 @@ def validateErr (m : LModel) : Option String :=
 
 end LModel
 
+/-- the comparison kind of the reified propagator `int_<op>_reif` -/
+def CmpOp.toCmp : CmpOp → Cmp
+  | .eq => .eq | .ne => .ne | .lt => .lt | .le => .le | .gt => .gt | .ge => .ge
+
 /-- the propagator kind of the integer core a lowered propagator stands for -/
 def LP.toPK : LP → PK
   | .eqVV x y => .eq (.var x) (.var y)
@@ -366,6 +419,8 @@ def LP.toPK : LP → PK
   | .linEq cs xs c => .linEq cs xs c
   | .linLe cs xs c => .linLe cs xs c
   | .linNe cs xs c => .linNe cs xs c
+  | .reif op x y b => .reif op.toCmp x y b
+  | .boolOr ops r => .boolOr ops r
 
 def LP.supported : LP → Bool
   | .divVV _ _ _ => false
